@@ -264,6 +264,142 @@ def sender_case(ctx, seed, idx):
     ctx.distinct('nontrivial_cases', ('send', tuple(s['sig'] for s in sent)))
 
 
+def _rx(mode):
+    p = RecServer() if mode == 'server' else RecClient()
+    ep = simnet.Endpoint(p, unix=True, name='rx').connect()
+    for piece in (SERVER_HS if mode == 'server' else CLIENT_HS + [b'AGREE_UNIX_FD\r\n']):
+        ep.feed(piece)
+    return p, ep
+
+
+def _simple_schedule(r, msgs):
+    """Descriptors of each message right before its first byte; the message possibly cut in two."""
+    sched = []
+    for mi, m in enumerate(msgs):
+        for k in range(m['nfd']):
+            sched.append(('fd', mi, k))
+        if len(m['raw']) > 1 and r.random() < 0.7:
+            cut = r.randint(1, len(m['raw']) - 1)
+            sched.append(('read', m['raw'][:cut]))
+            sched.append(('read', m['raw'][cut:]))
+        else:
+            sched.append(('read', m['raw']))
+    return sched
+
+
+def _verify(ctx, p, ep, msgs, w, case, who):
+    if ep.crashes:
+        ctx.report('crash', '%s crashed with %r' % (who, ep.crashes[0]), dict(w, crash=repr(ep.crashes[0])), case)
+        return False
+    if len(p.got) != len(msgs):
+        ctx.report('delivery-count', '%s: %d messages sent, %d delivered' % (who, len(msgs), len(p.got)), w, case)
+        return False
+    for (kind, m), exp in zip(p.got, msgs):
+        body = list(m.body) if getattr(m, 'body', None) else []
+        want = expected_body(exp)
+        if not same(body, want):
+            ctx.report('descriptor-misattributed', '%s: message %s delivered with %r, its descriptors are %r' % (
+                who, exp['member'], body, want), dict(w, got=repr(body), want=repr(want)), case)
+            return False
+    left = getattr(p, '_receivedFDs', None)
+    if isinstance(left, list) and left:
+        ctx.report('descriptors-left-queued', '%s: %d descriptors left queued after every message was delivered' % (
+            who, len(left)), w, case)
+        return False
+    return True
+
+
+def two_receivers(ctx, seed, idx):
+    """Two connections of one process receive descriptor-carrying messages; their reads and descriptor arrivals are
+    interleaved at random (each connection's own events stay in order).  What one connection is delivered does not depend
+    on where the other one's stream was cut.  Every third case a further connection is lost while a descriptor it
+    received waits for its message, before the two are created."""
+    r = random.Random('%s/c20two/%s' % (seed, idx))
+    case = {'kind': 'two-receivers', 'idx': idx}
+    ctx.count('evaluations')
+    if idx % 3 == 0:
+        pz, epz = _rx('server' if idx % 2 else 'client')
+        mz = [m for m in build_messages(r, 6, serial0=900) if m['nfd']][:1]
+        if mz:
+            epz.feed_fd(mz[0]['toks'][0])
+            epz.feed(mz[0]['raw'][:r.randint(1, len(mz[0]['raw']) - 1)])
+            epz.lose()
+            ctx.count('connections_lost_holding_a_descriptor')
+    sides = []
+    for name, s0 in (('A', 500), ('B', 700)):
+        msgs = []
+        while not any(m['nfd'] for m in msgs):
+            msgs = build_messages(r, r.randint(1, 3), serial0=s0)
+        for mi, m in enumerate(msgs):
+            m['toks'] = [Tok((0 if name == 'A' else 100) + mi, k) for k in range(m['nfd'])]
+        mode = r.choice(['server', 'client'])
+        p, ep = _rx(mode)
+        sides.append({'name': name, 'msgs': msgs, 'p': p, 'ep': ep, 'sched': _simple_schedule(r, msgs), 'mode': mode})
+    order = []
+    pend = [list(sd['sched']) for sd in sides]
+    while pend[0] or pend[1]:
+        k = r.randrange(2)
+        if not pend[k]:
+            k = 1 - k
+        # a descriptor and the read it arrives with are not separated by the other connection's events more often than not
+        n_ev = 1 if r.random() < 0.6 else 2
+        for _ in range(n_ev):
+            if pend[k]:
+                order.append((k, pend[k].pop(0)))
+    for k, ev in order:
+        sd = sides[k]
+        if ev[0] == 'fd':
+            sd['ep'].feed_fd(sd['msgs'][ev[1]]['toks'][ev[2]])
+        else:
+            sd['ep'].feed(ev[1])
+    w = {'order': [(sides[k]['name'],) + ((ev[0], ev[1], ev[2]) if ev[0] == 'fd' else ('read', len(ev[1]))) for k, ev in order],
+         'A': [{'sig': m['sig'], 'nfd': m['nfd']} for m in sides[0]['msgs']],
+         'B': [{'sig': m['sig'], 'nfd': m['nfd']} for m in sides[1]['msgs']]}
+    for sd in sides:
+        if not _verify(ctx, sd['p'], sd['ep'], sd['msgs'], w, case, 'connection ' + sd['name']):
+            return False
+    ctx.count('two_receiver_cases')
+    return True
+
+
+def resend_case(ctx, seed, idx):
+    """One descriptor-carrying message object handed to sendMessage more than once (the same call fanned out to two
+    connections, or repeated on one): every transmission puts the message's descriptors ahead of its bytes."""
+    from txdbus import message as MSG
+    r = random.Random('%s/c20resend/%s' % (seed, idx))
+    case = {'kind': 'resend', 'idx': idx}
+    ctx.count('evaluations')
+    sig, build, nfd = r.choice([sh for sh in SHAPES if sh[2]])
+    toks = [Tok(0, k) for k in range(nfd)]
+    body = build(iter(toks), 'r')
+    peers = [clientfix.Peer(unix=True).ready() for _ in range(2)]
+    for pr in peers:
+        pr.take()
+    try:
+        msg = MSG.MethodCallMessage('/a', 'Again', interface='a.b', destination='a.b', signature=sig, body=body,
+                                    expectReply=False, oobFDs=[])
+    except Exception as e:
+        ctx.report(None, 'MethodCallMessage with descriptors could not be built: %r' % e, {'sig': sig}, case)
+        return
+    plan = r.choice([[0, 1], [0, 0], [0, 1, 0], [1, 0, 1, 1]])
+    w = {'sig': sig, 'nfd': nfd, 'sent_on': plan}
+    for n_, k in enumerate(plan):
+        peers[k].proto.sendMessage(msg)
+        got = [m for m in peers[k].take() if m.fields.get('member') == 'Again']
+        if len(got) != 1:
+            ctx.report('send-count', 'transmission %d of one message object wrote %d messages' % (n_ + 1, len(got)), w, case)
+            return
+        m = got[0]
+        if len(m.fds) != nfd or any(a is not b for a, b in zip(m.fds, toks)):
+            ctx.report('resend-loses-descriptors', 'transmission %d of one message object (connection %d) was preceded by the '
+                       'descriptors %r, its arguments carry %r' % (n_ + 1, k, m.fds, toks), dict(w, transmission=n_ + 1), case)
+            return
+        if m.fields.get('unix_fds', 0) != nfd:
+            ctx.report('unix-fds-header', 'unix_fds header %r for %d descriptors' % (m.fields.get('unix_fds'), nfd), w, case)
+            return
+    ctx.count('resent_messages_ok')
+
+
 def run(ctx):
     si, sn = ctx.shard or (0, 1)
     quick = ctx.tier == 'quick'
@@ -359,6 +495,11 @@ def run(ctx):
                                                      sum(m['nfd'] for m in msgs))
     for i in range((1500 if quick else 20000) // sn):
         sender_case(ctx, ctx.seed, i * sn + si)
+    for i in range((300 if quick else 6000) // sn):
+        two_receivers(ctx, ctx.seed, i * sn + si)
+        resend_case(ctx, ctx.seed, i * sn + si)
+        if ctx.stop_early():
+            break
     ctx.sample({'messages': [{'sig': 'hh', 'nfd': 2}, {'sig': 's', 'nfd': 0}, {'sig': 'ah', 'nfd': 2}],
                 'schedule': ['fd m0#0', 'fd m0#1', 'fd m2#0', 'read 90', 'read 60', 'fd m2#1', 'read 80']})
     ctx.require(ctx.counters.get('interleavings', 0) > 200 or sn > 1, 'too few interleavings')
@@ -371,6 +512,12 @@ def replay(ctx, rp):
     seed = rp.get('seed', 0)
     if case['kind'] == 'send':
         sender_case(ctx, seed, case['idx'])
+        return
+    if case['kind'] == 'two-receivers':
+        two_receivers(ctx, seed, case['idx'])
+        return
+    if case['kind'] == 'resend':
+        resend_case(ctx, seed, case['idx'])
         return
     if case['kind'] == 'dfs':
         r = random.Random('%s/c20/%s/%s' % (seed, case['nm'], case['ci']))
